@@ -6,6 +6,8 @@ pub mod stubs;
 pub mod streams;
 
 pub mod c06_convert;
+pub mod c22_keepalive;
+pub mod c23_revise;
 pub mod c37_backoff;
 
 /// Native replay of a counterexample (written by /verif/check; see DESIGN.md 2.6).
